@@ -549,7 +549,8 @@ def evaluate__max_min_functions(self: XPathFunction, context: ta.ContextType = N
 @method(function('exists', nargs=1, sequence_types=('item()*', 'xs:boolean')))
 def evaluate__empty_and_exists_functions(self: XPathFunction, context: ta.ContextType = None) \
         -> bool:
-    return bool(next(iter(self.select(context))))
+    # the select of the class: a partial function has its own select() that yields itself
+    return bool(next(iter(type(self).select(self, context))))
 
 
 @method('empty')
